@@ -1,5 +1,6 @@
 """C07: shadow kinematics evaluated at every commit (DESIGN.md section 4, C07)."""
 import math
+from fractions import Fraction
 
 from ..seams import Monitor
 from ..runsim import walk_cnodes
@@ -45,10 +46,13 @@ class Kinematics(Monitor):
             ctx.violation("C07", "event_without_candidate_time",
                           {"handler": ctx.current_handler.__class__.__name__})
         qr = (now.quotient, now.remainder)
-        if self.prev_time is not None and qr < self.prev_time:
+        # exact value of quotient + remainder (a time need not be normalised to be compared correctly here)
+        value = (math.inf if math.isinf(now.quotient) else Fraction(now.quotient) + Fraction(now.remainder))
+        if self.prev_time is not None and value < self.prev_value:
             ctx.violation("C07", "event_time_decreased", {"previous": self.prev_time, "now": qr,
                                                            "handler": ctx.current_handler.__class__.__name__})
         self.prev_time = qr
+        self.prev_value = value
 
     def on_insert_end(self, state_handler, out_state):
         ctx = self.ctx
